@@ -454,6 +454,38 @@ func sessions(c *gal.Ctx, sp specFile, batch int) {
 		}
 		idx := c.Add("session", fmt.Sprintf("CSession %s %s %s", gal.List(ops), gal.List(obsLits), gal.List(fin)),
 			map[string]interface{}{"session": si, "steps": steps}, true)
+		// input distribution: operations of the session
+		for _, st := range steps {
+			switch st["op"] {
+			case "Fields":
+				if st["register"] == "TXTPublicKey" {
+					c.Rep.Distribution["session_op:Fields(TXTPublicKey)"]++
+				} else {
+					c.Rep.Distribution["session_op:Fields"]++
+				}
+			case "write":
+				c.Rep.Distribution["session_op:write"]++
+			default:
+				c.Rep.Distribution["session_op:reuse-[]Field"]++
+			}
+		}
+		c.Count(fmt.Sprintf("session_steps:%02d-%02d", len(steps)/8*8, len(steps)/8*8+7))
+		c.Count(fmt.Sprintf("session_values_handed_out:%03d-%03d", len(all)/25*25, len(all)/25*25+24))
+		rep := map[string]int{}
+		for _, cl := range calls {
+			rep[fmt.Sprintf("%s/%x", cl.reg, cl.raw)]++
+		}
+		again := false
+		for _, n := range rep {
+			if n > 1 {
+				again = true
+			}
+		}
+		if again {
+			c.Count("session_same_register_and_value_decoded_again:yes")
+		} else {
+			c.Count("session_same_register_and_value_decoded_again:no")
+		}
 		msg, upto, history := behaviour, behaviourSteps, true
 		if msg == "" {
 			msg, upto = sharing, sharingSteps
